@@ -27,6 +27,7 @@ Stmt(t) ==
       [] t = "DB" -> Dat("db", N(1)) [] t = "DWa" -> Dat("dw", I("a")) [] t = "DLa" -> Dat("dl", I("a"))
       [] t = "DLb" -> Dat("dl", I("b")) [] t = "DLc" -> Dat("dl", I("c")) [] t = "DLna" -> Dat("dl", I("n.a"))
       [] t = "DLnc" -> Dat("dl", I("n.c"))
+      [] t = "L_u" -> Lab("_u") [] t = "DLn_u" -> Dat("dl", I("n._u")) [] t = "DL_u" -> Dat("dl", I("_u"))
       [] t = "LDc" -> Op("lda", "dir", "", I("c")) [] t = "LDWc" -> Op("lda", "dir", "w", I("c"))
       [] t = "JMPa" -> Op("jmp", "dir", "w", I("a")) [] t = "NOP" -> Op("nop", "imp", "", N(0))
       [] t = "C3" -> [k |-> "assign", n |-> "c", e |-> N(3)]
@@ -132,6 +133,8 @@ AlphaSeq ==
       \* a label of an enclosing block, defined AFTER an inner block that uses the name, shadows the global one
       [] Family = "fwdshadow" -> <<"Lc", "LDc", "BRc", "{", "}">>
       \* a named scope exports what it DEFINES, not what its body merely looks up
+      \* names that start with an underscore are exported from named scopes like any other
+      [] Family = "underexport" -> <<"N{", "}", "L_u", "DLn_u", "DL_u", "C10", "DB">>
       [] Family = "exportleak" -> <<"C10", "N{", "}", "LDc", "DLnc", "Ec5", "DLc">>
       [] Family = "spliceloop" -> <<"M1{", "FOR02{", "}", "SPp", "AP1kb", "AP1k", "DBi">>
       [] Family = "tiny"   -> <<"La", "DB", "DLa", "{", "}", "S3">>
